@@ -45,6 +45,38 @@ CORPUS = [
 ]
 
 
+def stratum_cases():
+    """Deterministic stratum for "never another exception type": every unary function of the supported table applied
+    to dimensionless operands whose magnitude is 0, -0.0, negative or huge, to variables with zero / negative initial
+    values and to quotients / products of them.  On the unchanged tree every case gives a unit or a UnitError
+    (operands on which the unchanged code is known to raise -- exp of 1e308, x**2 of 1e308, 1/_0: finding
+    magnitude-arithmetic-exception -- are left to the random strata)."""
+    X0 = 3 * uc.NU                      # extra variables: -2.5, -1, 4, -0.5
+    vneg, vneg1, vpos, vnegh = [3, X0], [3, X0 + 1], [3, X0 + 2], [3, X0 + 3]
+    inv = lambda x: [6, x, [0, 0, F(-1)]]       # noqa: E731
+    operands = [
+        ('_0.0', [2, 2, F(0), 0]), ('_-0.0', [2, 1, F(0), 0]), ('_-2.5', [2, 2, F(-5, 2), 0]), ('_-1', [2, 2, F(-1), 0]),
+        ('_1e308', [2, 2, F(10 ** 308), 0]), ('0', [0, 0, F(0)]), ('0.0', [0, 2, F(0)]), ('-2.5', [0, 2, F(-5, 2)]),
+        ('z (initial value 0)', [3, 2]), ('n (initial value -2.5)', vneg), ('m (initial value -1)', vneg1),
+        ('n/p (-2.5/4)', [5, vneg, inv(vpos)]), ('p/n (4/-2.5)', [5, vpos, inv(vneg)]), ('n*m', [5, vneg, vneg1]),
+        ('n*p', [5, vneg, vpos]), ('h/p (-0.5/4)', [5, vnegh, inv(vpos)]), ('-1*p', [5, [0, 0, F(-1)], vpos]),
+        ('z/p', [5, [3, 2], inv(vpos)]), ('_0.0*p', [5, [2, 2, F(0), 0], vpos]),
+    ]
+    fns = [('log', 1), ('exp', 0), ('Abs', 2), ('floor', 3), ('ceiling', 4), ('factorial', 43)] + \
+          [(uc.bridge.FN_NAMES[i], i) for i in range(10, 34)]
+    cases = []
+    for oname, o in operands:
+        for fname, f in fns:
+            if oname == '_1e308' and f == 0:
+                continue            # exp(1e308): OverflowError, known finding
+            cases.append({'kind': 'stratum', 'tree': uc.tree_json([7, f, o]), 'evaluate': False,
+                          'name': '%s(%s)' % (fname, oname)})
+        for ename, e in (('sqrt', [0, 1, F(1, 2)]), ('cube root', [0, 1, F(1, 3)])):
+            cases.append({'kind': 'stratum', 'tree': uc.tree_json([6, o, e]), 'evaluate': False,
+                          'name': '%s(%s)' % (ename, oname)})
+    return cases
+
+
 def gen_cases(seed, n_trees):
     rng = random.Random(seed)
     cases = []
@@ -292,7 +324,7 @@ def run(ctx):
     ctx.assume += ['exponents are dyadic rationals and non-zero (pint keeps {mV: 0} distinct from dimensionless)',
                    'fsem abstract; psem satisfies psem (s*x) q = s^q * psem x q for s > 0 (proved for Eval.pow_sem)']
     corpus = [{'kind': 'corpus', 'tree': uc.tree_json(c['tree']), 'evaluate': False, 'name': c['name']} for c in CORPUS]
-    cases = corpus + gen_cases(ctx.seed * 7919 + 11, n)
+    cases = corpus + stratum_cases() + gen_cases(ctx.seed * 7919 + 11, n)
     evaluate(ctx, cases, vlib.pmap(safe_work, cases))
     if ctx.tie_breaks and not ctx.violations:
         more = gen_cases(ctx.seed * 7919 + 5000011, 10 * n)
@@ -334,4 +366,4 @@ KNOWN_PREDICATES = {'unchecked_condition': unchecked_condition,
 
 def dev_cases(ctx, n):
     corpus = [{'kind': 'corpus', 'tree': uc.tree_json(c['tree']), 'evaluate': False, 'name': c['name']} for c in CORPUS]
-    return corpus + gen_cases(ctx.seed * 7919 + 11, n)
+    return corpus + stratum_cases() + gen_cases(ctx.seed * 7919 + 11, n)
